@@ -46,6 +46,8 @@
 #include <time.h>
 #include <unistd.h>
 #include <sys/resource.h>
+#include <netdb.h>
+#include <sys/socket.h>
 
 #include "config.h"
 #include "src/common/hostlist.h"
@@ -418,6 +420,7 @@ static void finish(const char *status, int code)
     for (i = 0; i < nvhosts; i++) fprintf(stdout, "%s%d", i ? "," : "", vhosts[i].nbegin);
     fprintf(stdout, " destroys=");
     for (i = 0; i < nvhosts; i++) fprintf(stdout, "%s%d", i ? "," : "", vhosts[i].ndend);
+    if (stub_resolve) fprintf(stdout, " wrongaddr=%d", stub_wrong_addr);
     fprintf(stdout, " alive=");
     for (i = 0; i < nth; i++) if (th[i].alive) fprintf(stdout, "%s,", th[i].name);
     fprintf(stdout, "\n");
@@ -1006,7 +1009,32 @@ int __wrap_pthread_mutex_lock(pthread_mutex_t *m)
 int __wrap_pthread_mutex_unlock(pthread_mutex_t *m)
 {
     struct op o = { .kind = OP_UNLOCK, .cls = mutex_of(m)->cls, .obj = m };
-    return (int) sched_do(o)->ret;
+    int rc = (int) sched_do(o)->ret;
+    if (stub_resolve && o.cls == Y_MISC && self && self->alive) {
+        /* `resolve 1`: a thread may be preempted right after it has dropped a mutex, before it touches what the mutex
+         * protected (e.g. the resolver's static buffer): one more scheduling point of class `misc` */
+        struct op y = { .kind = OP_MEM, .cls = Y_MISC, .a = 0 };
+        sched_do(y);
+    }
+    return rc;
+}
+/* the resolver of the harness: like libc's, ONE static result buffer that every call overwrites */
+struct hostent *__wrap_gethostbyname(const char *name)
+{
+    static struct hostent he;
+    static unsigned char abuf[4];
+    static char *alist[2];
+    static char hname[128];
+    int i;
+    for (i = 0; i < nvhosts; i++)
+        if (strcmp(vhosts[i].name, name) == 0)
+            break;
+    if (i >= nvhosts) return NULL;
+    stub_addr_of(i, abuf);
+    snprintf(hname, sizeof hname, "%s", name);
+    alist[0] = (char *) abuf; alist[1] = NULL;
+    he.h_name = hname; he.h_aliases = alist + 1; he.h_addrtype = AF_INET; he.h_length = 4; he.h_addr_list = alist;
+    return &he;
 }
 int __wrap_pthread_cond_wait(pthread_cond_t *c, pthread_mutex_t *m)
 {
@@ -1226,6 +1254,7 @@ int main(int argc, char **argv)
         else if (!strcmp(k, "createfail")) createfail = atoi(v);
         else if (!strcmp(k, "nofile")) nofile = atol(v);
         else if (!strcmp(k, "nofile_soft")) nofile_soft = atol(v);
+        else if (!strcmp(k, "resolve")) stub_resolve = atoi(v);
         else if (!strcmp(k, "connerr")) stub_connerr = atoi(v);
         else if (!strcmp(k, "lowfds")) { int m = atoi(v), b; for (b = 0; b < 3; b++) low_owner[b] = (m >> b) & 1 ? -1 : -2; }
         else if (!strcmp(k, "seed")) { rng = 88172645463325252ULL ^ ((uint64_t) atoll(v) * 0x9e3779b97f4a7c15ULL); if (!rng) rng = 1; rnd(); rnd(); }
